@@ -9,17 +9,18 @@
    For keys with e = 3 the record carries quotient witnesses and TLC checks EM^3 = c (mod n): the logged block is the RSA
    decryption of the offered ciphertext (cubing is a bijection modulo n for these keys).
    Clauses starting with "harness:" are recorder inconsistencies (machinery failures), never verdicts on the library. *)
-EXTENDS PKCS1, BigNat, Json, IOUtils
+EXTENDS PKCS1, Json, IOUtils
+BN == INSTANCE BigNat          \* instantiated, not extended: its ASSUMEs are the business of ./check setup, not of every shard
 Traces == JsonDeserialize(IOEnv.TRACE_FILE)
 
 RECURSIVE CmpBE(_,_,_)
 CmpBE(a, b, i) == IF i > Len(a) THEN 0 ELSE IF a[i] < b[i] THEN 0 - 1 ELSE IF a[i] > b[i] THEN 1 ELSE CmpBE(a, b, i + 1)     \* equal lengths
 NotBelow(ct, nb) == CmpBE(ct, nb, 1) >= 0
 \* EM^3 = c (mod n) with untrusted quotients: EM^2 = q1 n + r1, r1 EM = q2 n + c
-CubeLink(e, em, ct) == LET n == BnOfBytesBE(e.nbytes)  x == BnOfBytesBE(em) IN
-   /\ BnIsNat(e.q1) /\ BnIsNat(e.r1) /\ BnIsNat(e.q2)
-   /\ BnIsModWitness(BnSqr(x), n, e.q1, e.r1)
-   /\ BnIsModWitness(BnMul(e.r1, x), n, e.q2, BnOfBytesBE(ct))
+CubeLink(e, em, ct) == LET n == BN!BnOfBytesBE(e.nbytes)  x == BN!BnOfBytesBE(em) IN
+   /\ BN!BnIsNat(e.q1) /\ BN!BnIsNat(e.r1) /\ BN!BnIsNat(e.q2)
+   /\ BN!BnIsModWitness(BN!BnSqr(x), n, e.q1, e.r1)
+   /\ BN!BnIsModWitness(BN!BnMul(e.r1, x), n, e.q2, BN!BnOfBytesBE(ct))
 
 \* ------------------------------------------------------------------ what every decrypt call must do before decoding
 \* "go": the call reached the decoder with a k-byte block; anything else is the verdict
